@@ -52,8 +52,9 @@ def gen_op(s: Choices, family: str, ds, mask_kinds=("none", "bool", "slice", "po
         if name in ("var", "std"):
             op["ddof"] = s.weighted([(3, 1), (1, 0)])
         if name == "agg":
-            op["funcs"] = [["sum", "max"], ["min", "count"], ["mean", "first"], ["last", "sum"]][s.draw(4)]
-            op["cols"] = [op["cols"][0]]
+            op["funcs"] = [["sum", "max"], ["min", "count"], ["mean", "first"], ["last", "sum"], "sum", "max", "mean"][s.draw(7)]
+            if isinstance(op["funcs"], list):
+                op["cols"] = [op["cols"][0]]
     elif name in ("median", "quantile", "apply"):
         op["transform"] = name != "quantile" and s.chance(1, 4)
         op["mask"] = gen.gen_mask(s, ds, tuple(k for k in mask_kinds if k in ("none", "bool")))
@@ -201,7 +202,7 @@ def tolerance(op, ds, rows):
         tol[f"_arr_{c}"] = t
     if name == "agg":
         t = tol.get("", 0.0)
-        for f in op.get("funcs", []):
+        for f in op.get("funcs", []) if isinstance(op.get("funcs"), list) else []:
             tol[f] = t
     return tol
 
